@@ -83,10 +83,11 @@ Fixpoint enc_ok (v : pval) : bool :=
   end.
 
 (* trees on which today's default-mode decoder is right below the top level: every integer token
-   fits 64 bits (otherwise the whole decode fails) *)
+   fits 64 bits and every other number fits binary64 (otherwise the whole decode fails) *)
 Fixpoint ints_ok (t : jtree) : bool :=
   match t with
   | JNum true z _ => int64_ok z
+  | JNum false _ b => f_finite b
   | JArr l => forallb ints_ok l
   | JObj l => forallb (fun kv => ints_ok (snd kv)) l
   | _ => true
@@ -97,6 +98,7 @@ Definition is_obj (t : jtree) : bool := match t with JObj _ => true | _ => false
    is exact (true up to 2^53 in magnitude), and no fraction/exponent token has an integral value
    inside the int64 range (it would be turned into an int) *)
 Definition token_exact (isint : bool) (z : Z) (b : N) : bool :=
+  f_finite b &&
   if isint then int64_ok z && match f_integral b with Some z' => (z' =? z)%Z | None => false end
   else match f_integral b with
        | Some z' => negb ((-9223372036854775808 <=? z')%Z && (z' <? 9223372036854775808)%Z)
